@@ -71,6 +71,8 @@ MUTANTS = [
     ('evp-deflation-left-stack-without-conjugate', 'scikit_tt/solvers/evp.py', "stacks.previous_left[j][i] = np.tensordot(stacks.previous_left[j][i], np.conjugate(trains.solution.cores[i - 1][:, :, 0, :]), axes=([0, 1], [0, 1]))", "stacks.previous_left[j][i] = np.tensordot(stacks.previous_left[j][i], trains.solution.cores[i - 1][:, :, 0, :], axes=([0, 1], [0, 1]))", 'fn:__construct_left_stacks', 'sesquilinear-structure'),
     ('evp-deflation-right-stack-reads-wrong-core', 'scikit_tt/solvers/evp.py', "stacks.previous_right[j][i] = np.tensordot(trains.previous[j].cores[i + 1][:, :, 0, :], stacks.previous_right[j][i], axes=([1, 2], [1, 2]))", "stacks.previous_right[j][i] = np.tensordot(trains.previous[j].cores[i][:, :, 0, :], stacks.previous_right[j][i], axes=([1, 2], [1, 2]))", 'fn:__construct_right_stacks', ''),
     ('evp-deflation-stacks-shared-between-tensors', 'scikit_tt/solvers/evp.py', "    stacks.previous_right  = [[None] * operator.order for _ in range(len(previous))]", "    stacks.previous_right  = stacks.previous_left", 'fn:evp.als', '*'),
+    ('norm-unconjugated-inner-product', F, "            norm = np.linalg.norm(\n                tt_tensor.cores[0].reshape(tt_tensor.row_dims[0] * tt_tensor.col_dims[0] * tt_tensor.ranks[1]))", "            first_core = tt_tensor.cores[0].reshape(tt_tensor.row_dims[0] * tt_tensor.col_dims[0] * tt_tensor.ranks[1])\n            norm = np.sqrt(np.dot(first_core, first_core))", 'TT.norm', 'norm-is-a-real-number'),
+    ('norm-via-vdot (harmless)', F, "            norm = np.linalg.norm(\n                tt_tensor.cores[0].reshape(tt_tensor.row_dims[0] * tt_tensor.col_dims[0] * tt_tensor.ranks[1]))", "            first_core = tt_tensor.cores[0].reshape(tt_tensor.row_dims[0] * tt_tensor.col_dims[0] * tt_tensor.ranks[1])\n            norm = np.sqrt(np.real(np.vdot(first_core, first_core)))", 'TT.norm', None),
 ]
 
 
